@@ -85,7 +85,7 @@ def detect(sid, props=None):
                     pass
     finally:
         sh("git -C /repo checkout -- .")
-        sh("cd /verif/r2l && ./target/debug/r2l targets.txt /repo/src ../lean/Grenad/Generated/Src > /dev/null")  # generated Lean back to the unchanged tree
+        sh(f"cd {ROOT}/r2l && ./target/debug/r2l targets.txt /repo/src ../lean/Grenad/Generated/Src > /dev/null")  # generated Lean back to the unchanged tree
     json.dump(meta, open(os.path.join(d, "meta.json"), "w"), indent=1)
 
 
